@@ -96,12 +96,13 @@ def register(reg):
                            "nsamps >= 1",
                            "self._header.foff <= -0.001 and self._header.foff >= -1000",
                            "self._header.fch1 >= 1 and self._header.fch1 <= 100000", "kch <= 100000",
-                           "ncsel >= 1 and k + ncsel <= self._header.nchans"],
+                           # a channel range that leaves the band is not excluded: it must be refused (raises)
+                           "ncsel >= 1 and k <= self._header.nchans"],
                  case_requires={("fch1", "freq"): ["kch >= 1", "fch1 == fl(self._header.fch1 + fl(kch * self._header.foff))"]},
                  modifies=[],
-                 skip_cases=["fch1=freq,nchans=None"],
                  after_assign={"chan_start": [("nearest channel", "chan_start == k")]},
-                 raises=[Raises("ValueError", when="start < 0 or start + nsamps > self._header.nsamples")],
+                 raises=[Raises("ValueError", when="start < 0 or start + nsamps > self._header.nsamples or "
+                                                   "k + ncsel > self._header.nchans")],
                  ret=Opaque())
     c.ensure("shape", "result.data.shape[0] == ncsel and result.data.shape[1] == nsamps")
     c.ensure("samples", "forall(c, 0, ncsel, forall(t, 0, nsamps, result.data[c, t] == PX((start + t) * NC + k + c)))")
